@@ -39,7 +39,7 @@ CHECKS["C22"] = dict(
 
 NOT_APPLICABLE = {}
 HOOK_COMMITS = ["4eebcf9", "f5ca208"]
-FIX_COMMITS = ["b3d92f0", "c4106b5", "b46521b", "9eb13bc", "c808f7a", "0de42e6", "8ba5c96", "d3e74d0", "e6c6b40", "da3144b", "45e3f7d", "346527f", "681f6bd", "2a3653c", "a3edb33", "28e05c2", "8174908", "4828015"]
+FIX_COMMITS = ["b3d92f0", "c4106b5", "b46521b", "9eb13bc", "c808f7a", "0de42e6", "8ba5c96", "d3e74d0", "e6c6b40", "da3144b", "45e3f7d", "346527f", "681f6bd", "2a3653c", "a3edb33", "28e05c2", "8174908", "4828015", "17b6674", "c788435"]
 
 # Per-property fragments: py/reg/cNN.py defines SPEC = dict(...) (same keys as above; may use `rust`).
 import glob as _glob, os as _os, importlib.util as _ilu
